@@ -279,6 +279,10 @@ def run(fx, tier):
     if 'R-TABLE' not in v.rules:
         v.rule('R-TABLE', 'reason-code tables of the packets this property handles equal the MQTT 5 tables')
     table_rows_rule(fx, v, 'C04', ('pubrel',))
+    from c01 import reply_matching_rule
+    if 'R-DOM' not in v.rules:
+        v.rule('R-DOM', 'reply matching on control code and packet identifier')
+    reply_matching_rule(fx, v, 'C04')
     v.expect_min('R-CGRAPH', 40, 'paths × rules')
     v.expect_min('R-FLOW', 40, 'id/message provenance sites')
     v.expect_min('R-DOM', 10, 'replies/session structure × TUs')
